@@ -65,13 +65,25 @@ structure CI (wf : Wf) (exc : Option Notif) (c : Nat) (cs : CompS) (dn : Bool) (
 
 structure Inv (wf : Wf) (exc : Option Notif) (s : St) : Prop where
   ci : ∀ j, CI wf exc j (s.comp j) (s.done j) s.pending
-  cur0 : s.cur = 0
+  /-- the stage loop never runs past the last stage -/
+  curLe : s.cur ≤ wf.lastStage
 
 /-- two-state facts: `staged` and a final `ctrl` never go back, `cur` and `done` are untouched -/
 structure Mono (s s' : St) : Prop where
   staged : ∀ j, (s.comp j).staged = true → (s'.comp j).staged = true
   ctrl : ∀ j f, (s.comp j).ctrl = some f → (s'.comp j).ctrl = some f
   cur : s'.cur = s.cur
+
+/-- the part of `Mono` that also holds across a stage transition -/
+structure MonoC (s s' : St) : Prop where
+  staged : ∀ j, (s.comp j).staged = true → (s'.comp j).staged = true
+  ctrl : ∀ j f, (s.comp j).ctrl = some f → (s'.comp j).ctrl = some f
+
+theorem Mono.toC {s s' : St} (h : Mono s s') : MonoC s s' := ⟨h.staged, h.ctrl⟩
+
+theorem MonoC.refl (s : St) : MonoC s s := ⟨fun _ h => h, fun _ _ h => h⟩
+theorem MonoC.trans {a b c : St} (h1 : MonoC a b) (h2 : MonoC b c) : MonoC a c :=
+  ⟨fun j h => h2.staged j (h1.staged j h), fun j f h => h2.ctrl j f (h1.ctrl j f h)⟩
 
 theorem Mono.refl (s : St) : Mono s s := ⟨fun _ h => h, fun _ _ h => h, rfl⟩
 theorem Mono.trans {a b c : St} (h1 : Mono a b) (h2 : Mono b c) : Mono a c :=
@@ -89,7 +101,7 @@ theorem CI.push {wf exc j cs dn pend} (h : CI wf exc j cs dn pend) (n : Notif) (
     · exact absurd a.symm hn
 
 theorem inv_init (wf : Wf) : Inv wf none init := by
-  refine ⟨fun j => ?_, rfl⟩
+  refine ⟨fun j => ?_, Nat.zero_le _⟩
   constructor <;> simp [init, own]
 
 /-! ## `finish` -/
@@ -103,7 +115,7 @@ theorem finish_inv {wf exc s c st} (hI : Inv wf exc s) (hst : (s.comp c).staged 
   split
   · -- post-mortem
     rename_i hex
-    refine ⟨fun j => ?_, hI.cur0⟩
+    refine ⟨fun j => ?_, hI.curLe⟩
     by_cases hj : j = c
     · subst hj
       have hpf : (s.comp j).pendingFinal = none := by
@@ -118,7 +130,7 @@ theorem finish_inv {wf exc s c st} (hI : Inv wf exc s) (hst : (s.comp c).staged 
   · split
     · -- live task
       rename_i hex hran
-      refine ⟨fun j => ?_, hI.cur0⟩
+      refine ⟨fun j => ?_, hI.curLe⟩
       by_cases hj : j = c
       · subst hj
         have hex' : (s.comp j).exit = none := by simpa using hex
@@ -133,7 +145,7 @@ theorem finish_inv {wf exc s c st} (hI : Inv wf exc s) (hst : (s.comp c).staged 
         exact hI.ci j
     · -- never launched
       rename_i hex hran
-      refine ⟨fun j => ?_, hI.cur0⟩
+      refine ⟨fun j => ?_, hI.curLe⟩
       by_cases hj : j = c
       · subst hj
         have hpf : (s.comp j).pendingFinal = none := by
@@ -168,7 +180,7 @@ theorem fakeFinish_inv {wf exc s c st} (hI : Inv wf exc s) (hst : (s.comp c).sta
   obtain ⟨hfc, hct, hr, he, hp⟩ := unstaged_facts hcI hst
   unfold fakeFinish finish
   simp only [upd_comp, if_true, hct, he, hr, Option.isSome_none, Bool.false_eq_true, if_false]
-  refine ⟨fun j => ?_, hI.cur0⟩
+  refine ⟨fun j => ?_, hI.curLe⟩
   by_cases hj : j = c
   · subst hj
     constructor <;> simp_all
@@ -251,7 +263,7 @@ theorem CI.launch {wf exc c cs dn pend} (h : CI wf exc c cs dn pend) (ho : c ∈
 theorem launch_inv {wf exc s} (l : List Nat) (hI : Inv wf exc s) (hl : ∀ c ∈ l, c ∈ wf.order) :
     Inv wf exc (l.foldl (runComp wf) (l.foldl stageIn s)) := by
   obtain ⟨hd, hp, hc, _⟩ := launch_rest wf l s
-  refine ⟨fun j => ?_, by rw [hc]; exact hI.cur0⟩
+  refine ⟨fun j => ?_, by rw [hc]; exact hI.curLe⟩
   obtain ⟨k, hk⟩ := launch_comp wf l s j
   rw [hk, hd, hp]
   split
